@@ -39,7 +39,7 @@ SUB_TRUST = ["sync.RWMutex, sync/atomic and channels behave as the Go memory mod
 HUB_STAGE = {"kind": "cases", "name": "hub-histories", "driver": "HUBSEQ", "parallel": 8, "n": {"quick": 400, "thorough": 4000}}
 HUB_RULE = ("handler-level sequential histories on the real hub (both transports; retention size 0/2/3; subscription events on/off): 6-20 operations "
             "drawn from a client that stops reading / reads again (its handler blocks in Write), bursts of publishes (every 8th case: 1000, 1001, 1002 or 1005 "
-            "updates to a stalled subscriber while another one keeps reading, so that the hub cuts the slow one off), publish (1-2 topics over {a,b,c}, private or not - the private field present with a value among on / empty / 0 / false / 1), subscribe (selectors over {a,b,c,*}, anonymous / claim [a|b] / claim [*], "
+            "updates to a stalled subscriber while another one keeps reading, so that the hub cuts the slow one off; every 16th case: the same with subscription events on), publish (1-2 topics over {a,b,c}, private or not - the private field present with a value among on / empty / 0 / false / 1), subscribe (selectors over {a,b,c,*}, anonymous / claim [a|b] / claim [*], "
             "Last-Event-ID none / earliest / a published id / unknown), client leaves, Hub.Stop, restart on the same history file; observed: each "
             "stream's status, Last-Event-ID header, ids received, whether the hub ended it; every publish's status; the history file read back; "
             "subscription events in it; the Prometheus gauge and counters and the number of listed subscribers after every operation. Each case is replayed through Model/Hub.v's wstep "
@@ -50,7 +50,7 @@ HUB_TRUST = ["critical sections under the transport lock and LocalSubscriber met
              "bbolt: atomic durable write transactions, snapshot reads, ordered cursor", "net/http, encoding/json, Prometheus client"]
 
 TRANS_STAGE = {"kind": "cases", "name": "transport-schedules", "driver": "TRANS", "binary": "verifs", "parallel": 12, "n": {"quick": 24, "thorough": 240}}
-TRANS_RULE = (" transport-schedules: 2-4 goroutines calling Dispatch / AddSubscriber(+Disconnect/RemoveSubscriber) / Close on a real Bolt or local transport whose "
+TRANS_RULE = (" transport-schedules: 2-4 goroutines calling Dispatch / AddSubscriber(+Disconnect/RemoveSubscriber) / Close (also two concurrent calls of Close) on a real Bolt or local transport whose "
               "current sources are instrumented at check time (yield before every statement that calls out or touches a channel, locks routed through the scheduler, "
               "buffer capacity 2), with an initial history, optional restart before, Last-Event-ID none/earliest/stored/unknown: every schedule with <= 2 preemptions "
               "(<= 250 runs per scenario; 3 / 3000 in thorough) plus random schedules; every distinct outcome (per-publish result and logical time-stamps, per-subscriber "
@@ -147,7 +147,11 @@ PROPS = {
             "trusted": HUB_TRUST + ["a frozen process with the file copied stands for kill -9 (page cache survives); power loss and bbolt's fsync protocol are not exercised",
                                     "the kill points are the scheduling points of mercure's own statements: a kill inside bbolt's commit is bbolt's atomicity (trusted)"],
             "assumptions": []},
-    "C15": {"binaries": ["verifh", "verifs"], "stages": [HUB_STAGE, TRANS_STAGE], "rule": HUB_RULE + TRANS_RULE, "trusted": HUB_TRUST, "assumptions": []},
+    "C15": {"binaries": ["verifh", "verifs"],
+            "stages": [HUB_STAGE, TRANS_STAGE, {"kind": "cases", "name": "mass-close", "driver": "MASSCLOSE", "n": {"quick": 2, "thorough": 8}}],
+            "rule": HUB_RULE + TRANS_RULE + " mass-close: 1025-2060 connected subscribers on each transport (more than any batch a transport might process at a time), "
+                    "five of them gone before, then Hub.Stop: every stream ended by the hub, a later subscription and a later publish refused; judged by the specification "
+                    "predicate alone (the hub model is not replayed on a thousand registrations).", "trusted": HUB_TRUST, "assumptions": []},
     "C20": {"stages": [HUB_STAGE], "rule": HUB_RULE, "trusted": HUB_TRUST, "assumptions": []},
     "C13": {
         "binaries": ["verifh", "verifs"],
@@ -166,7 +170,7 @@ PROPS = {
     "C02": {
         "stages": [{"kind": "cases", "name": "publish", "driver": "C02", "n": {"quick": 1, "thorough": 1}}],
         "exhaustive": True,
-        "rule": "EXHAUSTIVE enumeration of the abstract shape table through real POSTs: publish claim in {key absent, null, [], literal hit, literal miss, "
+        "rule": "EXHAUSTIVE enumeration of the abstract shape table through real POSTs: publish claim in {key absent, null, [], literal hit, literal miss, the same literal twice, template + literal covering the same topic, "
                 "template hit, '*' first / middle / last, no token, bad signature} x topic lists of length 1-3 over {allowed, forbidden} in every position "
                 "x private {absent, present with value on / empty / 0} x compat {off, 7} x body {well-formed, no topic, bad retry, retry overflow, wrong "
                 "content type, unparsable (these five with 1-topic lists)} x {local, bolt}; after every request a sentinel publish separates what a witness "
@@ -182,7 +186,7 @@ PROPS = {
         "rule": "EXHAUSTIVE product {absent, valid, invalid signature, malformed, duplicated}^3 over the Authorization header, the authorization query "
                 "parameter and the cookie (each valid credential carries different rights, so the effective identity is observable) x endpoint {publish POST, "
                 "subscribe GET, subscription API GET} x anonymous {on, off} x cookie name {default, custom}; plus, for a cookie alone on a POST, Origin "
-                "{absent, allowed, not allowed} x Referer {absent, allowed, not allowed, unparsable} x publish origins {none, list, '*'} x cookie {valid, invalid}. "
+                "{absent, allowed, not allowed, 'null'} x Referer {absent, allowed, not allowed, unparsable} x publish origins {none, list, '*', list containing 'null'} x cookie {valid, invalid}. "
                 "Observed per case: three probes (publish topics / private deliveries / subscription URLs). non-trivial = at least two carriers present, or the CSRF rule in play",
         "trusted": ["net/http header, cookie and query parsing; url.Parse for the Referer (oracle table computed with url.Parse directly)", "JWT verification (C03)"],
         "assumptions": [],
@@ -220,7 +224,7 @@ PROPS = {
         "stages": [{"kind": "cases", "name": "lookups", "driver": "C11", "n": {"quick": 1500, "thorough": 20000}}],
         "rule": "sequences of 5-30 (topic, selector) lookups, and 2-4 goroutines sharing one store, against stores without cache, of size 0, tiny "
                 "(1-3 entries x 1-2 shards) and default; selectors: literals, every RFC 6570 operator/modifier, malformed templates; topics: expansions for "
-                "random values, near misses, strings around the cache-key separator '_' and pairs built to collide under key concatenation; every answer "
+                "random values over unreserved, reserved (gen-delims, sub-delims) and never-literal characters, near misses, a literal prefix followed by reserved characters, strings around the cache-key separator '_' and pairs built to collide under key concatenation; every answer "
                 "compared with the cached model and with a fresh uncached evaluation by the library. non-trivial = sequence has both true and false answers",
         "trusted": ["uritemplate + Go regexp as oracle (Section variable tmatch); layer B (the template language itself) is not modelled",
                     "hashicorp LRU modelled as a map that may forget any entry at any time"],
